@@ -1124,9 +1124,15 @@ func (c *rcluster) requireCheckpoint(vp *rview, ticks int) (string, string) {
 			return "", ""
 		}
 		started := false
+		var ckid uint64
+		acked := map[string]bool{}
 		for _, x := range c.ev.since(from) {
 			if x.Kind == "startckpt" {
 				started = true
+				ckid = x.Id
+			}
+			if (x.Kind == "opack" || x.Kind == "srack") && x.Msg == "" {
+				acked[x.Node] = true
 			}
 			if x.Kind == "barrier.refused" || (x.Kind == "opack" || x.Kind == "srack") && x.Msg != "" {
 				notes = append(notes, fmt.Sprintf("%s %s ckpt %d: %s", x.Kind, x.Node, x.Id, x.Msg))
@@ -1134,6 +1140,19 @@ func (c *rcluster) requireCheckpoint(vp *rview, ticks int) (string, string) {
 		}
 		if !started {
 			notes = append(notes, "tick started no checkpoint (checkpoint in progress)")
+		} else {
+			var missOps, missSrs []string
+			for _, id := range v.asmOps {
+				if !acked[id] {
+					missOps = append(missOps, id)
+				}
+			}
+			for _, id := range v.asmSrs {
+				if !acked[id] {
+					missSrs = append(missSrs, id)
+				}
+			}
+			notes = append(notes, fmt.Sprintf("checkpoint %d was started but operators %v / runners %v of the running assembly never acknowledged it", ckid, missOps, missSrs))
 		}
 		c.heartbeats()
 	}
@@ -1145,9 +1164,9 @@ func (c *rcluster) requireCheckpoint(vp *rview, ticks int) (string, string) {
 	switch {
 	case strings.Contains(pan, "only one source splitter"):
 		known = "Dev_SplitterAppended"
-	case strings.Contains(all, "checkpoint ID mismatch"):
-		known = "Dev_OpKeepsCheckpoint"
-	case strings.Contains(all, "tick started no checkpoint") && !strings.Contains(all, "mismatch"):
+	case strings.Contains(all, "checkpoint ID mismatch"), len(notes) > 0 && strings.Contains(notes[0], "never acknowledged it") && strings.Contains(notes[0], "runners []"):
+		known = "Dev_OpKeepsCheckpoint" // every runner acknowledged, an operator is stuck behind a checkpoint of its previous deployment
+	case len(notes) > 0 && strings.HasPrefix(notes[0], "tick started no checkpoint"):
 		known = "Dev_PendingNotCleared"
 	}
 	if len(all) > 900 {
